@@ -147,7 +147,8 @@ func (p *wat2cWorker) buildFunc_body(w io.Writer, fn *ast.Func, cRetType string)
 				unreachable()
 			}
 		default:
-			for i, xType := range fn.Type.Results {
+			for i := len(fn.Type.Results) - 1; i >= 0; i-- { // the last result is on top of the stack
+				xType := fn.Type.Results[i]
 				spi := stk.Pop(xType)
 				switch xType {
 				case token.I32:
